@@ -4,7 +4,7 @@ from ..mm import mask_names
 
 PROP = "C18"
 THEOREMS = ["Names.conflictLoop_iff_prefix", "MemMap.related_iff", "MemMap.str_ne_int", "MemMap.available_iff", "MemMap.addResource_refuses_conflict", "MemMap.addResource_accepts_legal", "MemMap.addResource_ninv", "MemMap.addWindow_ninv", "MemMap.addWindow_refuses_conflict", "MemMap.names_prefix_free"]
-IMPORTS = ["SocVerif"]
+IMPORTS = ["SocVerif.Props.C18"]
 
 
 def nontrivial(r):
